@@ -11,11 +11,18 @@ Line shapes (`;` separates list entries whose own encoding may contain `,`):
     zk       <kind> <cv> <params> <X> <A> <e> <Z> <open:0|1>      => accept|reject
     sim      <kind> <cv> <params> <X> <e> <A> <Z>                 => accept|reject
     extract  <kind> <cv> <params> <X> <A> <e1> <Z1> <e2> <Z2>     => ok:<W>|err
-    and      <kind> <cv> <params> <Xs> <As> <e> <Zs>              => accept|reject
-    or       <kind> <cv> <params> <Xs> <As> <e> <es> <Zs>         => accept|reject
-    fischlin <kind> <cv> <params> <rho> <X> <As> <es> <Zs> <ts>   => accept|reject
-    batch    <cv> <G> <Xs> <A> <e> <Z>   /  batchfs … <e> <eCtx> <Z>  /  batchsim <cv> <G> <Xs> <e> <A> <Z>
+    and      <kind> <cv> <params> <n> <Xs> <As> <e> <Zs>          => accept|reject   (n = configured branches)
+    or       <kind> <cv> <params> <n> <Xs> <As> <e> <es> <Zs>     => accept|reject
+    fischlin <kind> <cv> <params> <rho> <X> <As> <es> <Zs> <ts>   => accept|reject   (rho = specified repetitions)
+    fischlinbits <tag> <kind> <rho> <ts> <vs>                     => accept|reject   (per-repetition target / sigma bits)
+    batch    <cv> <k> <G> <Xs> <A> <e> <Z>   /  batchfs … <e> <eCtx> <Z>  /  batchsim <cv> <k> <G> <Xs> <e> <A> <Z>
     elog     <cv> <G,PK,H> <X1> <X2> <A1> <A2> <e> <Z1> <Z2>      => accept|reject
+    zkopen   <tag> <kind> <opens:0|1>                             => answered|refused
+    params   fischlin <nthroot|other> <ss> <rho> <b> <t>  /  params randfischlin <lambda> <l> <r> <t>  => ok
+
+The number of repetitions / branches / statements in these lines is the *specified* one (the compiler's
+published parameters, the count the composition was constructed with), not the one found in the proof:
+the model rejects every proof whose component count differs, whatever its hashes say.
 
 `<eCtx>` is the challenge the harness derived *independently* from the verifier's context with the
 real transcript (domain separator, statement, commitment); `ts` are the per-repetition hash-target
@@ -96,22 +103,22 @@ def runInst {H G : Type} [DecidableEq G] (I : Inst H G) (op : String) (args : Li
         | some wm => .bad "extract-failed" ("two accepting transcripts, model extracts " ++ I.renderH wm)
         | none => mirror "err" rhs
     | _, _, _, _, _, _ => .unsupported "extract args"
-  | "and", xss :: ass :: es :: zss :: fsArgs =>
-    match (splitSemi xss).mapM I.parseG, (splitSemi ass).mapM I.parseG, hexToNat? es, (splitSemi zss).mapM I.parseH with
-    | some xs, some as, some e, some zs =>
+  | "and", ns :: xss :: ass :: es :: zss :: fsArgs =>
+    match ns.toNat?, (splitSemi xss).mapM I.parseG, (splitSemi ass).mapM I.parseG, hexToNat? es, (splitSemi zss).mapM I.parseH with
+    | some n, some xs, some as, some e, some zs =>
       match fsArgs with
-      | [] => spec "and-verify" (acc (andVerify P.verify xs as e zs)) rhs
-      | [eb, ec] => spec "and-fs-verify" (acc (fsOn (andVerify P.verify) xs as eb ec zs)) rhs
+      | [] => spec "and-verify" (acc (andVerifyN n P.verify xs as e zs)) rhs
+      | [eb, ec] => spec "and-fs-verify" (acc (fsOn (andVerifyN n P.verify) xs as eb ec zs)) rhs
       | _ => .unsupported "and fs args"
-    | _, _, _, _ => .unsupported "and args"
-  | "or", xss :: ass :: es :: ess :: zss :: fsArgs =>
-    match (splitSemi xss).mapM I.parseG, (splitSemi ass).mapM I.parseG, hexToNat? es, parseNatList? ess, (splitSemi zss).mapM I.parseH with
-    | some xs, some as, some e, some ees, some zs =>
+    | _, _, _, _, _ => .unsupported "and args"
+  | "or", ns :: xss :: ass :: es :: ess :: zss :: fsArgs =>
+    match ns.toNat?, (splitSemi xss).mapM I.parseG, (splitSemi ass).mapM I.parseG, hexToNat? es, parseNatList? ess, (splitSemi zss).mapM I.parseH with
+    | some n, some xs, some as, some e, some ees, some zs =>
       match fsArgs with
-      | [] => spec "or-verify" (acc (orVerify P.verify xs as e ees zs)) rhs
-      | [eb, ec] => spec "or-fs-verify" (acc (fsOn (fun xs as e (z : List Nat × List H) => orVerify P.verify xs as e z.1 z.2) xs as eb ec (ees, zs))) rhs
+      | [] => spec "or-verify" (acc (orVerifyN n P.verify xs as e ees zs)) rhs
+      | [eb, ec] => spec "or-fs-verify" (acc (fsOn (fun xs as e (z : List Nat × List H) => orVerifyN n P.verify xs as e z.1 z.2) xs as eb ec (ees, zs))) rhs
       | _ => .unsupported "or fs args"
-    | _, _, _, _, _ => .unsupported "or args"
+    | _, _, _, _, _, _ => .unsupported "or args"
   | "fischlin", [rhos, xs, ass, ess, zss, tss] =>
     match rhos.toNat?, I.parseG xs, (splitSemi ass).mapM I.parseG, parseNatList? ess, (splitSemi zss).mapM I.parseH, parseNatList? tss with
     | some rho, some x, some as, some ees, some zs, some ts =>
@@ -151,31 +158,60 @@ def nthrootInst (n : Nat) : Inst Nat Nat :=
 
 def handle (op : String) (args : List String) (rhs : String) : Verdict :=
   match op, args with
-  | "batch", [cv, gs, xss, as, es, zs] =>
+  | "batch", [cv, ks, gs, xss, as, es, zs] =>
     match byName? cv with
     | none => .unsupported "curve"
     | some C =>
-      match Curves.parse? C gs, Curves.parseList? C xss, Curves.parse? C as, hexToNat? es, parseScalar C.n zs with
-      | some g, some xs, some a, some e, some z =>
-        spec "batch-verify" (acc (batchVerify (curveGrp C) g xs a (e % C.n) z)) rhs
-      | _, _, _, _, _ => .unsupported "batch args"
-  | "batchfs", [cv, gs, xss, as, es, ecs, zs] =>
+      match ks.toNat?, Curves.parse? C gs, Curves.parseList? C xss, Curves.parse? C as, hexToNat? es, parseScalar C.n zs with
+      | some k, some g, some xs, some a, some e, some z =>
+        spec "batch-verify" (acc (batchVerifyK k (curveGrp C) g xs a (e % C.n) z)) rhs
+      | _, _, _, _, _, _ => .unsupported "batch args"
+  | "batchfs", [cv, ks, gs, xss, as, es, ecs, zs] =>
     match byName? cv with
     | none => .unsupported "curve"
     | some C =>
-      match Curves.parse? C gs, Curves.parseList? C xss, Curves.parse? C as, chalNat? es, chalNat? ecs, parseScalar C.n zs with
-      | some g, some xs, some a, some _, some _, some z =>
-        let model := fsOn (fun xs a e z => batchVerify (curveGrp C) g xs a (e % C.n) z) xs a es ecs z
+      match ks.toNat?, Curves.parse? C gs, Curves.parseList? C xss, Curves.parse? C as, chalNat? es, chalNat? ecs, parseScalar C.n zs with
+      | some k, some g, some xs, some a, some _, some _, some z =>
+        let model := fsOn (fun xs a e z => batchVerifyK k (curveGrp C) g xs a (e % C.n) z) xs a es ecs z
         spec "batch-fs-verify" (acc model) rhs
-      | _, _, _, _, _, _ => .unsupported "batchfs args"
-  | "batchsim", [cv, gs, xss, es, as, zs] =>
+      | _, _, _, _, _, _, _ => .unsupported "batchfs args"
+  | "batchsim", [cv, ks, gs, xss, es, as, zs] =>
     match byName? cv with
     | none => .unsupported "curve"
     | some C =>
-      match Curves.parse? C gs, Curves.parseList? C xss, hexToNat? es, Curves.parse? C as, parseScalar C.n zs with
-      | some g, some xs, some e, some a, some z =>
-        spec "batch-sim-verify" (acc (batchVerify (curveGrp C) g xs a (e % C.n) z)) rhs
-      | _, _, _, _, _ => .unsupported "batchsim args"
+      match ks.toNat?, Curves.parse? C gs, Curves.parseList? C xss, hexToNat? es, Curves.parse? C as, parseScalar C.n zs with
+      | some k, some g, some xs, some e, some a, some z =>
+        spec "batch-sim-verify" (acc (batchVerifyK k (curveGrp C) g xs a (e % C.n) z)) rhs
+      | _, _, _, _, _, _ => .unsupported "batchsim args"
+  | "fischlinbits", [_, _, rhos, tss, vss] =>
+    match rhos.toNat?, parseNatList? tss, parseNatList? vss with
+    | some rho, some ts, some vs =>
+      if ts.length ≠ vs.length then .unsupported "fischlinbits lengths" else
+      -- the proof as the list of its repetition indices; target / sigma verdicts are looked up
+      let π : List (Nat × Unit × Unit) := (List.range ts.length).map fun i => (i, (), ())
+      let model := fischlinVerify rho (fun (_ : Unit) (_ : Unit) (_ : List Nat) => ())
+        (fun _ i _ _ => ts.getD i 0 == 1) (fun _ i _ _ => vs.getD i 0 == 1) () () π
+      spec "fischlin-verify" (acc model) rhs
+    | _, _, _ => .unsupported "fischlinbits args"
+  | "zkopen", [_, _, os] =>
+    if os ≠ "0" ∧ os ≠ "1" then .unsupported "zkopen bit" else
+    let model := zkRound4 (fun (_ _ : Unit) (_ : Unit) (_ : Unit) => os == "1") (fun _ => ()) () () () ()
+    spec "zk-open" (if model.isSome then "answered" else "refused") rhs
+  | "params", ["fischlin", name, sss, rhos, bs, ts] =>
+    match sss.toNat?, rhos.toNat?, bs.toNat?, ts.toNat? with
+    | some ss, some rho, some b, some t =>
+      let m := fischlinSpec (name == "nthroot") ss
+      if rhs ≠ "ok" then .unsupported "params rhs" else
+      mirror (toString m.1 ++ "," ++ toString m.2.1 ++ "," ++ toString m.2.2) (toString rho ++ "," ++ toString b ++ "," ++ toString t)
+    | _, _, _, _ => .unsupported "params args"
+  | "params", ["randfischlin", lams, ls, rs, ts] =>
+    match lams.toNat?, ls.toNat?, rs.toNat?, ts.toNat? with
+    | some lam, some l, some r, some t =>
+      if lam ≠ 128 ∨ l ≠ 8 then .diff "randfischlin lambda/l differ from the specification (128, 8)" else
+      let m := randFischlinSpec lam l
+      if rhs ≠ "ok" then .unsupported "params rhs" else
+      mirror (toString m.1 ++ "," ++ toString m.2) (toString r ++ "," ++ toString t)
+    | _, _, _, _ => .unsupported "params args"
   | "elog", cv :: ps :: x1s :: x2s :: a1s :: a2s :: es :: z1s :: z2s :: fsArgs =>
     match byName? cv with
     | none => .unsupported "curve"
